@@ -12,6 +12,7 @@ register(
         "GtModel.C17.make_distinct_post",
         "GtModel.C17.make_distinct_terminates",
         "GtModel.C17.sort_sorted_partial",
+        "GtModel.C17.sort_terminates_partial",
         "GtModel.C17.search_tighten_terminates",
         "GtModel.C17.search_terminates",
         "GtModel.C17.search_returns_min",
@@ -21,6 +22,8 @@ register(
     ],
     streams=["bounded", "bounded_O"],
     assumptions=[
+        "items are INDEPENDENT trajectories: tightening one Bounded object never changes the bounds of another (real edits "
+        "share sub-edits; shared state between the compared objects is outside the model, the theorems and the generator)",
         "items follow the Bounded protocol as finite trajectories: nested, strictly shrinking ranges ending in a point "
         "(ValidSt); IterativeTighteningSearch is used with the default initial_bounds (graphtage never passes one)",
         "intervaltree's set iteration inside make_distinct picks some maximal-size interval (validated per run; the "
@@ -35,7 +38,13 @@ register(
         "harness wrappers recording oracle answers: subclasses substituted for graphtage.bounds.BoundedComparator, "
         "graphtage.bounds.IntervalTree and graphtage.search.FibonacciHeap inside the worker process only",
     ],
-    partial="sort_sorted_partial assumes the heap contract (the recorded transcript of comparator calls and pops is "
+    partial="TERMINATION of bounds.sort is proved only up to the heap: sort_terminates_partial (same heap contract) shows "
+            "that every comparator call terminates, that all calls together perform at most total(sigma) tightenings, and "
+            "that the drain loop pops exactly n times and then the heap is empty; that the Fibonacci heap makes finitely "
+            "many comparator calls per push / pop is ASSUMED (part of the contract), not derived from the C16 model.  "
+            "Schedules in which tighten_bounds() answers True without changing the range (stutter steps) are outside the "
+            "theorems (ValidSt demands strictly shrinking ranges), the monitor (traj_valid) and the generator.  "
+            "sort_sorted_partial assumes the heap contract (the recorded transcript of comparator calls and pops is "
             "accepted by sortReplay: every pop is justified by performed comparisons) instead of deriving it from a "
             "heap model; the contract is validated on every recorded run.  The C16 heap model cannot discharge it as "
             "is: it takes a pure comparator with asymmetry (Total), while BoundedComparator is stateful and answers "
